@@ -4,17 +4,19 @@ from ..rules import contain as C
 from ..rules import scenario as SC
 
 EXPLANATION = (
-    "Static analysis. Decides: every call of user-provided code in the worker (task call, result put) and every "
-    "done-callback is enclosed by a BaseException handler that sends the failure back under the task's own work id and "
-    "neither re-raises nor leaves the loop (R-EXC-BREADTH); the feeder serialises before taking the pipe lock, releases "
-    "it in finally, and on error releases the queue slot and calls the hook on every continuation (R-FEEDER, R-PAIR); "
-    "the executor's hook removes its own entry, fails only that future with PicklingError/RuntimeError + cause, wakes the "
-    "manager and has no broken/kill effect (R-FEEDER-HOOK); the remote traceback travels as __cause__ of the task's own "
-    "exception (R-CAUSE); single-owner resolution (R-OWN-RESOLVE, R-DROP-RESOLVES); the task's exception is sent pickling-safely, the feeder's "
-    "silent IndexError handler covers the pop only, failure vs success is chosen by identity (R-EXC-BREADTH, R-FEEDER, "
-    "R-SCN-RESULT); no repr/str/f-string of a user object is evaluated unguarded on the worker loop, the manager or the "
-    "feeder hook (R-USER-FMT); no live exception of an internal thread is handed to a future (R-LIVE-EXC). "
-    "Not decided: values of sibling outcomes."
+    'Static analysis. Decides: every call of user-provided code in the worker (task call, result put) and every '
+    "done-callback is enclosed by a BaseException handler that sends the failure back under the task's own work id "
+    'and neither re-raises nor leaves the loop (R-EXC-BREADTH); the feeder serialises before taking the pipe lock, '
+    'releases it in finally, and on error releases the queue slot and calls the hook on every continuation (R-FEEDER, '
+    "R-PAIR); the executor's hook removes its own entry, fails only that future with PicklingError/RuntimeError + "
+    'cause, wakes the manager and has no broken/kill effect (R-FEEDER-HOOK); the remote traceback travels as '
+    "__cause__ of the task's own exception (R-CAUSE); single-owner resolution (R-OWN-RESOLVE, R-DROP-RESOLVES); the "
+    "task's exception is sent pickling-safely, the feeder's silent IndexError handler covers the pop only, failure vs "
+    'success is chosen by identity (R-EXC-BREADTH, R-FEEDER, R-SCN-RESULT); no repr/str/f-string of a user object is '
+    'evaluated unguarded on the worker loop, the manager or the feeder hook (R-USER-FMT); no live exception of an '
+    'internal thread is handed to a future (R-LIVE-EXC). Also decided: every handler of the result put reports for '
+    'the task; the silent EPIPE return does not cover the serialisation (R-EXC-BREADTH, R-FEEDER). Not decided: '
+    'values of sibling outcomes.'
 )
 
 
